@@ -1489,7 +1489,6 @@ func runSched(p *Plan, keepLog bool, mode string) *RunResult {
 		res.Counters.inc("jitter_runs")
 	}
 	close(startGate)
-	start := time.Now()
 	if !free && strings.HasPrefix(mode, "fg") {
 		if !fineGrainBuild {
 			return &RunResult{Seed: p.Seed, Engine: "sched", Prop: p.Prop, Counters: counters{}, HarnessErr: "fine-grain mode needs the zsim.fg build"}
@@ -1522,6 +1521,7 @@ func runSched(p *Plan, keepLog bool, mode string) *RunResult {
 	func() {
 		last := int64(-1)
 		stall := 0
+		freeLast, freeSince := int64(-1), time.Now()
 		tick := time.NewTicker(500 * time.Millisecond)
 		defer tick.Stop()
 		for {
@@ -1531,8 +1531,16 @@ func runSched(p *Plan, keepLog bool, mode string) *RunResult {
 			case <-tick.C:
 				cur := atomic.LoadInt64(&s.steps)
 				if free {
-					if time.Since(start) > 120*time.Second {
-						deadlock = "free-running clients did not finish within 120 s"
+					// progress, not wall time: a loaded machine makes a run slow, not blocked
+					var sum int64
+					for k := range s.opsDone {
+						sum += atomic.LoadInt64(&s.opsDone[k])
+					}
+					if sum != freeLast {
+						freeLast, freeSince = sum, time.Now()
+					}
+					if time.Since(freeSince) > 120*time.Second {
+						deadlock = "free-running clients completed no operation for 120 s"
 						return
 					}
 					continue
@@ -1560,9 +1568,19 @@ func runSched(p *Plan, keepLog bool, mode string) *RunResult {
 						}
 					}
 				}
-				if stall > 20 && time.Since(start) > 130*time.Second {
-					deadlock = "clients did not finish within 120 s after being released"
-					return
+				if stall >= 20 {
+					// released (by this watchdog or by the step budget): blocked means no operation completes any more
+					var sum int64
+					for k := range s.opsDone {
+						sum += atomic.LoadInt64(&s.opsDone[k])
+					}
+					if sum != freeLast {
+						freeLast, freeSince = sum, time.Now()
+					}
+					if time.Since(freeSince) > 120*time.Second {
+						deadlock = "clients completed no operation for 120 s after being released"
+						return
+					}
 				}
 			}
 		}
